@@ -470,9 +470,49 @@ func runJoinScenario(w *ndWriter, c joinCase, seed int64, steps int) {
 		}
 		emit("join.closed", fmt.Sprintf(`"cycle":%d,"hung":%v,"before":%d,"after":%d,"base_alive":%v,"base_done":%v,"sample":%q`, cy, hung, before, after, alive, baseDone, sample))
 	}
-	// shut the bases down
-	run.src.Close()
+	// first only the destination base stops: a join requested now fails (or is born dead), and whatever it had
+	// already created on the still running source side must be gone again
+	idle()
+	beforeLate, _ := libGoroutineCount()
 	run.dst.Close()
+	select {
+	case <-run.dst.Done():
+	case <-time.After(3 * time.Second):
+	}
+	idle()
+	afterDstClosed, _ := libGoroutineCount()
+	half := make(chan string, 1)
+	go func() {
+		nrun, err := restartJoin(ctx, c, run)
+		if err != nil {
+			half <- "error"
+			return
+		}
+		nrun.stopEvents()
+		select {
+		case <-nrun.joinDone:
+			half <- "done"
+		case <-time.After(2 * time.Second):
+			nrun.closeJoin()
+			half <- "alive"
+		}
+	}()
+	halfRes := "blocked"
+	select {
+	case halfRes = <-half:
+	case <-time.After(4 * time.Second):
+	}
+	idle()
+	time.Sleep(2 * time.Millisecond)
+	idle()
+	afterHalf, sampleHalf := libGoroutineCount()
+	sampleHalf = strings.ReplaceAll(sampleHalf, "\n", " | ")
+	if len(sampleHalf) > 300 {
+		sampleHalf = sampleHalf[:300]
+	}
+	emit("join.halfstopped", fmt.Sprintf(`"res":%q,"before":%d,"dst_closed":%d,"after":%d,"sample":%q`, halfRes, beforeLate, afterDstClosed, afterHalf, sampleHalf))
+	// shut the other bases down
+	run.src.Close()
 	if run.mid != nil {
 		run.mid.Close()
 	}
